@@ -65,8 +65,11 @@ def _gen_one(rng, seed):
                 "iterations": rng.choice([6, 8, 10]), "runs": 4, "policies": ["mixed"], "seed": seed, "style": "frac", "explicit_last": True}
     side = _random.Random(f"late|{seed}")
     prog = gen.gen_c05_program(rng)
-    if side.random() < 0.05:
+    r_side = side.random()
+    if r_side < 0.05:
         prog = gen.late_init_c05(side)
+    elif r_side < 0.08:
+        prog = gen.double_init_constant_c05(side)
     symvals = {}
     if rng.random() < 0.25 and gen.symbolise(prog, rng, "p"):
         symvals["p"] = rng.choice(["1/3", "1/2", "3/4", "1/10"])
